@@ -276,6 +276,14 @@ class Summary:
         v0 = vals[0]
         if all(_veq(v, v0) for v in vals[1:]):
             return v0
+        if len(self.returns) == 2 and all(isinstance(v, Poly) for v in vals):
+            # `if c: return a` / `return b`: the value is the conditional form ite(c, a, b) (the same form a conditional assignment followed by one return gives)
+            (a, g1, _), (b, g2, _) = self.returns
+            g1, g2 = [x for g in g1 for x in g.flat_and()], [x for g in g2 for x in g.flat_and()]
+            if len(g1) == 1 and len(g2) == 1:
+                (q1, f1), (q2, f2) = cond_poly(g1[0]), cond_poly(g2[0])
+                if q1 == q2 and f1 != f2:
+                    return ite(g1[0], a, b)
         return TOP
 
     def stores_to(self, name: str) -> List[Store]:
@@ -288,6 +296,39 @@ class Summary:
                 if isinstance(x, Ref):
                     out.append(x.name)
         return out
+
+
+def cond_poly(c: "Cond"):
+    """(canonical form of a condition as a Poly application, flipped?) - `a <= b` is the flipped `b < a`, `a != b` the flipped `a == b`, `not X` the flipped X"""
+    def P(x):
+        return x if isinstance(x, Poly) else Poly.sym(repr(x))
+    if c is None:
+        return Poly.sym("?"), False
+    if c.kind == "not":
+        q, fl = cond_poly(c.args[0])
+        return q, not fl
+    if c.kind == "cmp" and len(c.args) == 3:
+        a, op, b = c.args
+        a, b = P(a), P(b)
+        if op == "<":
+            return Poly.fn("cmp:<", a, b), False
+        if op == "<=":
+            return Poly.fn("cmp:<", b, a), True
+        if op in ("==", "!="):
+            x, y = sorted((a, b), key=repr)
+            return Poly.fn("cmp:==", x, y), op == "!="
+        return Poly.fn("cmp:" + op, a, b), False
+    if c.kind == "truth":
+        return Poly.fn("truth", P(c.args[0])), False
+    return Poly.sym(repr(c)), False
+
+
+def ite(c: "Cond", a: Poly, b: Poly) -> Poly:
+    """value of a scalar after the join of `if c: x = a else: x = b`, with the condition kept in one polarity (so that both spellings of the test give one form)"""
+    q, fl = cond_poly(c)
+    if fl:
+        a, b = b, a
+    return Poly.fn("ite", q, a, b)
 
 
 def _veq(a, b) -> bool:
@@ -495,7 +536,7 @@ class KEval:
                 if _veq(a, b):
                     out[k] = a
                 elif isinstance(a, Poly) and isinstance(b, Poly):
-                    out[k] = Poly.fn("phi", a, b)
+                    out[k] = ite(c, a, b)
                 elif isinstance(a, Ref) and isinstance(b, Ref) and a.name == b.name:
                     out[k] = a
                 else:
